@@ -90,9 +90,10 @@ pub fn rand_mem(rng: &mut Rng) -> Opnd {
 pub fn rand_label(rng: &mut Rng) -> Opnd {
     let off = match rng.below(4) {
         0 => 0,
-        1 => rng.below(16) as u32,
+        1 => *rng.pick(&[0u32, 1, 14, 15, 3, 7, 30, 31]),
         2 => rng.below(60000) as u32,
-        _ => *rng.pick(&[1u32, 2, 255, 256, 4095, 4096, 32767, 32768, 65000]),
+        // (offsets ending in Fh / Eh / 0h / 1h can be placed on the end of the 1 MB space by choosing DS)
+        _ => *rng.pick(&[1u32, 2, 15, 14, 31, 255, 256, 4095, 4096, 32767, 32768, 65000, 65535, 65534]),
     };
     Opnd::Label { name: format!("vl{}", off), off }
 }
